@@ -143,7 +143,7 @@ SnapDiff(sp, sn) ==
 
 \* fields of the observation line compared with the implementation's line
 LineFields == {"r", "q", "g", "cur", "conf", "run", "fa", "st", "evq", "buf", "lso", "og",
-               "rxi", "rxf", "ntx", "cur0", "g0", "ev", "lrf", "hl"}
+               "rxi", "rxf", "ntx", "cur0", "g0", "ev", "lrf", "hl", "gt", "fbh", "npl"}
 
 SpecSnapDiff(s, t, sn) ==
   {<<"sn", k>> : k \in RecDiff(SpecSnap(s, t), sn)} \cup EDiff(<<ESnap(s.host, t)>>, <<sn.host>>)
